@@ -61,6 +61,19 @@ def update_state_in_place(n, then='return'):
     return n
 
 
+def count_then_maybe_sleep(seconds=0):
+    """persistent target: increments user_state['n'] on every call, then sleeps (cooperatively) for `seconds`"""
+    import time
+    me = _me()
+    s = dict(me.user_state or {'n': 0})
+    s['n'] = s.get('n', 0) + 1
+    me.user_state = s
+    t0 = time.time()
+    while time.time() - t0 < seconds:
+        time.sleep(0.01)
+    return s['n']
+
+
 def set_state_and_raise(x):
     me = _me()
     me.user_state = ('child', x)
